@@ -7,7 +7,8 @@ CFG = {
     "rule": "scripted readers through ansi.NewParser: end of input or read error at every byte offset of 46 corpus streams and of "
             "generated streams (three chunkings), Close() issued while blocked in a read at every chunk boundary, four consumers "
             "(Finish at once / retain everything / Finish 1..5 items late) with deep copies compared to the retained originals, "
-            "Escape-timer scripts with 40 ms pauses after a lone ESC and back-to-back reads otherwise; distinct by (consumer, script)",
+            "Escape-timer scripts with 40 ms pauses after a lone ESC and back-to-back reads otherwise (incl. a C0 control executed in the escape state before the pause); "
+            "hook-held timer callbacks released before / inside / after the following bytes; distinct by (consumer, script)",
     "trusted_base": ["the statement order of run/readRune/the timer callback in Model/ParserRunFine.lean is pinned to the regenerated skeletons (Gen/ParserRun.lean, Gen/ParserReader.lean: "
                      "model_order_is_source_order); what each statement *does* (mainStep/cbStep) is by reading; "
                      "sync.Mutex gives sequential consistency for the fields it guards; FIFO order of emit; time.AfterFunc/Stop and sync.Pool semantics as stated in notes/C08.md",
